@@ -410,7 +410,7 @@ func checkSetNameSpacePairing(p *Program, r *Report, rule string) {
 				}
 				// a helper that is handed both halves: judged at each of its call sites
 				if pt, okT := tx.root.(*ssa.Parameter); okT && tx.kind == "of" && ns.kind == "of" && tx != ns {
-					if pn, okN := ns.root.(*ssa.Parameter); okN && !isOurTmplPtr(pt.Type()) && !isOurTmplPtr(pn.Type()) {
+					if pn, okN := ns.root.(*ssa.Parameter); okN && f.Object() != nil && !f.Object().Exported() {
 						ti, ni := paramIndex(f, pt), paramIndex(f, pn)
 						sites := 0
 						for _, caller := range p.SrcFuncs() {
@@ -425,8 +425,17 @@ func checkSetNameSpacePairing(p *Program, r *Report, rule string) {
 										continue
 									}
 									sites++
-									ctx := fe.ofText(call.Common().Args[ti])
-									cns := fe.ofNS(call.Common().Args[ni])
+									var ctx, cns tfam
+									if isOurTmplPtr(pt.Type()) {
+										ctx = fe.ofTemplate(call.Common().Args[ti])
+									} else {
+										ctx = fe.ofText(call.Common().Args[ti])
+									}
+									if isOurTmplPtr(pn.Type()) {
+										cns = fe.ofTemplate(call.Common().Args[ni])
+									} else {
+										cns = fe.ofNS(call.Common().Args[ni])
+									}
 									judge(fmt.Sprintf("%s#%s@%s%d", cshort, short, fld, sites), p.Pos(call.Pos()), ctx, cns, freshPairs[caller])
 								}
 							}
@@ -434,6 +443,33 @@ func checkSetNameSpacePairing(p *Program, r *Report, rule string) {
 						if sites > 0 {
 							continue
 						}
+					}
+				}
+				// a helper that is handed a text template and makes the name space for it: right if every caller hands it a
+				// text template of a set it has just created
+				if pt, okT := tx.root.(*ssa.Parameter); okT && tx.kind == "of" && ns.kind == "fresh" && f.Object() != nil && !f.Object().Exported() && !isOurTmplPtr(pt.Type()) {
+					ti := paramIndex(f, pt)
+					sites, okSites := 0, true
+					for _, caller := range p.SrcFuncs() {
+						if caller.Pkg != tsp {
+							continue
+						}
+						for _, cb := range caller.Blocks {
+							for _, cin := range cb.Instrs {
+								call, isCall := cin.(*ssa.Call)
+								if !isCall || staticCallee(call.Common()) != f {
+									continue
+								}
+								sites++
+								if fe.ofText(call.Common().Args[ti]).kind != "fresh" {
+									okSites = false
+								}
+							}
+						}
+					}
+					if sites > 0 && okSites {
+						r.OK(rule, cn, pos, "a new name space for the text/template set that every caller has just created")
+						continue
 					}
 				}
 				judge(cn, pos, tx, ns, freshPair)
